@@ -96,7 +96,8 @@ def gen_config(rng, small=False):
                                 conv.append([s["id"], c, nd, it])
     kinds = [rng.choice(["days", "bl", "cum"]) if b > 0 else "days" for b in bs] if detailed else []
     truthy = [i for i in allids if rng.random() < 0.3] if rng.random() < 0.4 else []
-    return {"kinds": kinds, "truthyAll": truthy, "detailed": detailed, "nCycles": nC, "burnSteps": bs, "startCycle": sc, "startNode": sn,
+    avail = rng.choice([0.0, 0.0, 0.5, 1.0, 1.0]) if not detailed else None
+    return {"avail": avail, "kinds": kinds, "truthyAll": truthy, "detailed": detailed, "nCycles": nC, "burnSteps": bs, "startCycle": sc, "startNode": sn,
             "stack": stack, "deferred": deferred, "deferredCycle": defCycle, "coupling": coupling,
             "maxIters": maxIters, "skip": skip, "halt": halt, "conv": conv}
 
@@ -136,6 +137,7 @@ def name_of(i):
 
 # --------------------------------------------------------------------------- the real run
 _classes = {}
+SIDE = []      # (cycle, node, r.p.availabilityFactor, r.p.stepLength) seen inside EveryNode hooks of the last real run
 
 
 def rec_classes():
@@ -175,6 +177,7 @@ def rec_classes():
 
         def interactEveryNode(self, cycle, node):
             self._log("EveryNode", cycle, node)
+            SIDE.append((cycle, node, float(self.r.p.availabilityFactor), float(self.r.p.stepLength)))
             return self.truthy
 
         def interactCoupled(self, iteration):
@@ -225,6 +228,8 @@ def cs_overrides(cfg):
     else:
         over["burnSteps"] = cfg["burnSteps"][0] if cfg["burnSteps"] else 0
         over["cycleLength"] = 10.0
+        if cfg.get("avail") is not None:
+            over["availabilityFactor"] = cfg["avail"]     # exactly 0.0 = a decay-only history
     return over
 
 
@@ -246,6 +251,7 @@ def build_operator(cfg, log):
 def real_run(cfg):
     """Canonical event log of the real run, or 'reject' if the real code raises."""
     log = []
+    del SIDE[:]
     try:
         with common.quiet():
             o, r = build_operator(cfg, log)
@@ -306,6 +312,36 @@ def reference(cfg):
         groups.append(("EOC", [c], c, rn, [s["id"] for s in ref_active(cfg, "EOC")]))
     groups.append(("EOL", [], rc, rn, [s["id"] for s in ref_active(cfg, "EOL")]))
     return groups
+
+
+def expected_time_state(cfg, c):
+    """(availability factor, step length) of cycle c as the inputs state them (None = not checked)."""
+    b = cfg["burnSteps"][c]
+    if not cfg["detailed"]:
+        a = 1.0 if cfg.get("avail") is None else cfg["avail"]
+        return a, (10.0 * a / b if b else None)
+    kind = (cfg.get("kinds") or ["days"] * len(cfg["burnSteps"]))[c]
+    if kind == "bl" and b > 0:
+        return 0.5, 10.0 * 0.5 / b
+    if kind == "cum" and b > 0:
+        return 0.75, 1.25
+    return 1.0, (1.5 if b else None)
+
+
+def check_time_state(ctx, cfg):
+    """r.p.availabilityFactor / r.p.stepLength seen in the EveryNode hooks match the cycle inputs."""
+    for (c, n, av, sl) in SIDE:
+        if c >= len(cfg["burnSteps"]):
+            continue
+        ea, es = expected_time_state(cfg, c)
+        if abs(av - ea) > 1e-12:
+            ctx.fail("schedule-availability-in-hook", "r.p.availabilityFactor inside a hook is the availability of the current cycle "
+                     "(a value of exactly 0 included)", {"config": cfg}, observed=[c, n, av], expected=ea)
+            return
+        if es is not None and n < cfg["burnSteps"][c] and abs(sl - es) > 1e-9 * max(1.0, es):
+            ctx.fail("schedule-steplength-in-hook", "r.p.stepLength inside a hook is the length of the step that starts at this node",
+                     {"config": cfg}, observed=[c, n, sl], expected=es)
+            return
 
 
 def flat(groups):
@@ -406,6 +442,9 @@ def section_runs(ctx):
                     key, detail = classify(cfg, obs, exp)
                     ctx.fail("schedule-" + key, "event log of the real run equals the reference schedule of the property",
                              {"config": cfg}, observed=dict(detail, log=obs[:1500]), expected=exp[:1500])
+                check_time_state(ctx, cfg)
+                if cfg.get("avail") == 0.0:
+                    ctx.count("config: availability exactly 0")
             else:
                 if expected_reject(cfg) is None:
                     ctx.fail("schedule-run-raises", "a valid configuration runs to completion", {"config": cfg},
@@ -438,6 +477,9 @@ def directed_configs():
         out.append(dict(base, stack=plain_stack(4), halt=[], truthyAll=[pos]))
     out.append(dict(base, stack=plain_stack(3, db=True), halt=[[2, 1]], truthyAll=[1, 2], coupling=True,
                     conv=[]))
+    for a in (0.0, 1.0, 0.5):
+        out.append(dict(base, stack=plain_stack(2), halt=[], avail=a))
+        out.append(dict(base, stack=plain_stack(2), halt=[], avail=a, nCycles=1, burnSteps=[3]))
     bs = [2, 1, 3]
     det = dict(base, detailed=True, kinds=["bl", "cum", "days"], nCycles=3, burnSteps=bs, stack=plain_stack(3))
     for sc in range(3):
@@ -593,15 +635,71 @@ def section_steps(ctx):
     from armi import utils
 
     rng = ctx.rng
-    n = ctx.pick(300, 5000)
+    n = ctx.pick(400, 6000)
     reqs, impl_f, cases = [], [], []
-    for _ in range(n):
-        kind = rng.choice(["simple", "stepdays", "cum", "bl"])
+
+    def unit(lo=0.125):
+        """a fraction in [0, 1]: exactly 0.0 and exactly 1.0 as often as an interior value"""
+        x = rng.random()
+        return 0.0 if x < 0.3 else 1.0 if x < 0.6 else common.dyadic(rng, lo, 1, 3)
+
+    def opt(v):
+        return "_" if v is None else (common.ratlist(v) if isinstance(v, list) else common.rat(v))
+
+    fixed = [("bl0", None)]
+    for it in range(n):
+        kind = "bl0" if it == 0 else rng.choice(["simple", "simplecs", "simplecs", "stepdays", "cum", "bl"])
+        if kind == "simplecs":
+            nC, b = rng.randint(1, 4), rng.randint(0, 4)
+            form_a, form_l, form_p = rng.choice("sln"), rng.choice("sl"), rng.choice("ln")
+            afs = [unit() for _ in range(nC)] if form_a == "l" else None
+            af = unit() if form_a == "s" else (None if rng.random() < 0.5 else unit())
+            cls_ = [common.dyadic(rng, 0, 64, 3) for _ in range(nC)] if form_l == "l" else None
+            cl = common.dyadic(rng, 0, 64, 3)
+            pfs = [unit(0.0) for _ in range(nC)] if form_p == "l" else None
+            if rng.random() < 0.15:
+                afs = [] if afs is None else afs        # an empty list counts as "not given"
+            cs = {"cycles": [], "nCycles": nC, "burnSteps": b, "availabilityFactors": afs, "availabilityFactor": af,
+                  "cycleLengths": cls_, "cycleLength": cl, "powerFractions": pfs}
+            av, sl, cyl, pf = (call(f, cs) for f in (utils.getAvailabilityFactors, utils.getStepLengths, utils.getCycleLengths,
+                                                     utils.getPowerFractions))
+            reqs.append(f"simplecs {nC} {b} {opt(afs)} {opt(af)} {opt(cls_)} {opt(cl)} {opt(pfs)}")
+            impl_f.append(("simplecs", av, cyl, sl, pf))
+            cases.append({"kind": kind, "cs": {k: v for k, v in cs.items() if k != "cycles"}})
+            ctx.count("step inputs: scalar availability exactly 0" if (not afs and af == 0.0) else
+                      "step inputs: availability list with an exact 0" if (afs and 0.0 in afs) else "step inputs: other simple forms")
+            # oracle: the value given is the value used (0.0 is a value), and the sums
+            want_av = afs if afs else ([af] * nC if af is not None else [1])
+            if av is None or [float(x) for x in av] != [float(x) for x in want_av]:
+                ctx.fail("steps-availability-honoured", "the availability factors are the ones given (a list, else the scalar for every "
+                         "cycle, else 1) - exactly 0 included", cases[-1], observed=av, expected=want_av)
+            want_pf = [[v] * b for v in (pfs if pfs else [1.0] * nC)]
+            if pf is None or pf != want_pf:
+                ctx.fail("steps-power-fractions-honoured", "the power fractions are the ones given - exactly 0 included", cases[-1],
+                         observed=pf, expected=want_pf)
+            if sl is not None and cyl is not None and av is not None and b > 0:
+                for c in range(min(len(sl), len(cyl), len(av))):
+                    if abs(sum(sl[c]) - av[c] * cyl[c]) > 1e-9 * max(1, abs(cyl[c])) or len(sl[c]) != b:
+                        ctx.fail("steps-sum", "step lengths of a cycle sum to availability x cycle length", cases[-1],
+                                 observed=[sl[c], cyl[c], av[c]])
+            ctx.case(reqs[-1])
+            continue
+        if kind == "bl0":
+            # a decay-only DETAILED cycle: burn steps + cycle length with availability exactly 0 (the schema allows it)
+            cyc = {"burn steps": 2, "cycle length": 10.0, "availability factor": 0.0}
+            cs = {"cycles": [cyc], "nCycles": 1}
+            sl, cl = call(utils.getStepLengths, cs), call(utils.getCycleLengths, cs)
+            reqs.append("steps bl 0 2 10"); impl_f.append(("bl", sl, cl)); cases.append({"kind": "bl", "cycle": cyc})
+            if sl != [[0.0, 0.0]] or cl != [10.0]:
+                ctx.fail("detailed-cycle-zero-availability-raises", "a detailed cycle given by burn steps, cycle length and availability 0 has "
+                         "zero-length steps and its cycle length", cases[-1], observed=[sl, cl], expected=[[[0.0, 0.0]], [10.0]])
+            ctx.case(reqs[-1])
+            continue
         if kind == "simple":
             nC = rng.randint(1, 4)
             b = rng.randint(0, 4)
             lens = [common.dyadic(rng, 0, 64, 3) for _ in range(nC)]
-            av = [common.dyadic(rng, 0.125, 1, 3) for _ in range(nC)]
+            av = [unit() for _ in range(nC)]
             cs = {"cycles": [], "cycleLengths": lens, "availabilityFactors": av, "burnSteps": b, "nCycles": nC,
                   "cycleLength": None, "availabilityFactor": None, "powerFractions": None}
             sl, cl = call(utils.getStepLengths, cs), call(utils.getCycleLengths, cs)
@@ -615,10 +713,17 @@ def section_steps(ctx):
                     if len(sl[c]) != b:
                         ctx.fail("steps-count", "a cycle has burnSteps steps", cases[-1], observed=sl[c])
         else:
-            a = common.dyadic(rng, 0.125, 1, 3)
+            a = unit() if rng.random() < 0.5 else common.dyadic(rng, 0.125, 1, 3)
+            if kind == "bl" and a == 0.0:
+                a = 1.0      # availability 0 with burn steps + cycle length: the fixed first case of this stream (known finding)
             if kind == "stepdays":
                 d = [common.dyadic(rng, 0.125, 32, 3) for _ in range(rng.randint(0, 5))]
-                cyc = {"step days": d, "availability factor": a}
+                pfl = [unit(0.0) for _ in d]
+                cyc = {"step days": d, "availability factor": a, "power fractions": pfl}
+                got_pf = call(utils.getPowerFractions, {"cycles": [cyc], "nCycles": 1})
+                if a != 0.0 and got_pf != [pfl]:
+                    ctx.fail("steps-power-fractions-honoured", "the power fractions are the ones given - exactly 0 included",
+                             {"kind": kind, "cycle": cyc}, observed=got_pf, expected=[pfl])
                 reqs.append(f"steps stepdays {common.rat(a)} {common.ratlist(d)}")
             elif kind == "cum":
                 d, t = [], 0.0
@@ -645,6 +750,14 @@ def section_steps(ctx):
             ok = m == "reject"
         elif m in ("reject", "bad-op"):
             ok = False
+        elif f[0] == "simplecs":
+            parts = m.split(";")
+            def same_rows(model_rows, real_rows):
+                return real_rows is not None and len(model_rows) == len(real_rows) and all(
+                    len(r) == len(fr) and all(common.close(x, Fraction(q)) for x, q in zip(fr, r)) for r, fr in zip(model_rows, real_rows))
+            ok = (len(parts) == 4 and same_rows([common.parse_list(parts[0])], [f[1]] if f[1] is not None else None)
+                  and same_rows([common.parse_list(parts[1])], [f[2]] if f[2] is not None else None)
+                  and same_rows(common.parse_list(parts[2]), f[3]) and same_rows(common.parse_list(parts[3]), f[4]))
         elif f[0] == "simple":
             rows = common.parse_list(m)
             ok = len(rows) == len(f[1]) and all(
@@ -655,7 +768,7 @@ def section_steps(ctx):
             ok = len(row) == len(f[1][0]) and all(common.close(x, Fraction(q)) for x, q in zip(f[1][0], row)) \
                 and common.close(f[2][0], Fraction(mc))
         if not ok:
-            ctx.disagree("Schedule.stepLengths vs armi.utils._getStepAndCycleLengths", case, m, repr(f[1:3]))
+            ctx.disagree("Schedule.stepLengths vs armi.utils._getStepAndCycleLengths", case, m, repr(f[1:]))
     ctx.count("step-length inputs", n)
 
 
@@ -892,7 +1005,9 @@ def check_config(cfg):
         key, detail = classify(cfg, obs, exp)
         return Failure("schedule-" + key, "event log of the real run equals the reference schedule of the property",
                        {"config": cfg}, observed=dict(detail, log=obs[:1500]), expected=exp[:1500])
-    return None
+    sub = common.Ctx("C15", "quick", 0)
+    check_time_state(sub, cfg)
+    return sub.failures[0] if sub.failures else None
 
 
 def search(ctx, disagreements, broken):
